@@ -464,10 +464,15 @@ def _shrink_and_write(prop, sig, r, scratch, shrink_s, seed, k=0):
                "trace": mini}, open(path, "w"), indent=1, sort_keys=True)
     # replay in a fresh interpreter; only a reproducing replay may be reported
     env2 = dict(os.environ, PYTHONHASHSEED=hs)
-    try:
-        cp = subprocess.run([PY, os.path.abspath(__file__), "--replay", path, "--quiet"], env=env2,
-                            capture_output=True, text=True, timeout=RUN_TIMEOUT_S * 2)
-    except subprocess.TimeoutExpired:
+    cp = None
+    for _attempt in range(2):   # a heavily loaded machine may need a second go; a timeout is never a verdict
+        try:
+            cp = subprocess.run([PY, os.path.abspath(__file__), "--replay", path, "--quiet"], env=env2,
+                                capture_output=True, text=True, timeout=RUN_TIMEOUT_S * 3)
+            break
+        except subprocess.TimeoutExpired:
+            continue
+    if cp is None:
         return None
     if cp.returncode != 1 or "VIOLATION property=%s" % prop not in cp.stdout:
         return None
